@@ -141,6 +141,7 @@ structure St where
   caches : List CacheSlot := []
   pm : Portmap.Registry := []
   pmAddr : Bytes := []
+  fs : Fs.T := Fs.empty 67108864
   drain : Drain.St := Drain.init
   cfg : Option Config.Cfg := none
   cfgCpu : Nat := 1
@@ -363,6 +364,98 @@ def connsCmd : List String → String
     | _, _ => "bad-op"
   | _ => "bad-op"
 
+def parsePath (h : String) : Option Fs.Path :=
+  (fromHex h).map fun b => (splitOnByte 47 b).filter (· ≠ [])
+
+def pathStr (p : Fs.Path) : String :=
+  if p.isEmpty then "/" else String.join (p.map fun c => "/" ++ String.ofList (c.map fun b => Char.ofNat b.toNat))
+
+def pathLt : Fs.Path → Fs.Path → Bool
+  | [], [] => false
+  | [], _ :: _ => true
+  | _ :: _, [] => false
+  | a :: as, b :: bs => if Fs.bytesLt a b then true else if Fs.bytesLt b a then false else pathLt as bs
+
+def octStr (n : Nat) : String := String.ofList (Nat.toDigits 8 n)
+
+def fsDump (fs : Fs.T) : String :=
+  let sorted := fs.ents.toArray.qsort (fun a b => pathLt a.1 b.1) |>.toList
+  String.join (sorted.map fun (p, e) =>
+    match e.kind with
+    | .dir => s!"d:{pathStr p}:{octStr e.perm}:{e.uid}:{e.gid};"
+    | .file => s!"f:{pathStr p}:{octStr e.perm}:{e.uid}:{e.gid}:{toHex e.data};"
+    | .link => s!"l:{pathStr p}:{toHex e.data};")
+
+def errName : Fs.Errno → String
+  | .ENOENT => "ENOENT" | .EEXIST => "EEXIST" | .ENOTDIR => "ENOTDIR" | .EISDIR => "EISDIR"
+  | .ENOTEMPTY => "ENOTEMPTY" | .EINVAL => "EINVAL" | .EFBIG => "EFBIG" | .ELOOP => "ELOOP"
+  | .EBADF => "EBADF" | .EIO => "EIO"
+
+def kindCh : Fs.Kind → String
+  | .file => "f" | .dir => "d" | .link => "l"
+
+def showInfo (i : Fs.Info) : String := s!"{kindCh i.kind} {octStr i.perm} {i.size} {i.uid} {i.gid}"
+
+def fsUpd (st : St) (r : Except Fs.Errno Fs.T) : St × String :=
+  match r with
+  | .ok fs => ({ st with fs := fs }, "ok")
+  | .error e => (st, errName e)
+
+def fsCmd (st : St) : List String → St × String
+  | ["reset"] => ({ st with fs := Fs.empty 67108864 }, "ok")
+  | ["dump"] => (st, fsDump st.fs)
+  | ["lstat", p] => match parsePath p with
+    | some p => (st, match Fs.lstat st.fs p with | .ok i => showInfo i | .error e => errName e)
+    | none => (st, "bad-op")
+  | ["stat", p] => match parsePath p with
+    | some p => (st, match Fs.stat st.fs p with | .ok i => showInfo i | .error e => errName e)
+    | none => (st, "bad-op")
+  | ["readlink", p] => match parsePath p with
+    | some p => (st, match Fs.readlink st.fs p with | .ok t => toHex t | .error e => errName e)
+    | none => (st, "bad-op")
+  | ["read", p, off, cnt] => match parsePath p, off.toNat?, cnt.toNat? with
+    | some p, some off, some cnt =>
+      (st, match Fs.openRead st.fs p with
+        | .ok (_, e) => if e.kind = .file then toHex (Fs.slice e.data off cnt) else "EISDIR"
+        | .error e => errName e)
+    | _, _, _ => (st, "bad-op")
+  | ["write", p, off, d] => match parsePath p, off.toNat?, fromHex d with
+    | some p, some off, some d => fsUpd st ((Fs.writeAt st.fs p off d).map (·.1))
+    | _, _, _ => (st, "bad-op")
+  | ["truncate", p, n] => match parsePath p, n.toNat? with
+    | some p, some n => fsUpd st (Fs.truncate st.fs p n)
+    | _, _ => (st, "bad-op")
+  | ["create", p] => match parsePath p with
+    | some p => fsUpd st (Fs.create st.fs p)
+    | none => (st, "bad-op")
+  | ["mkdir", p, perm] => match parsePath p, parseOct perm with
+    | some p, some perm => fsUpd st (Fs.mkdir st.fs p perm)
+    | _, _ => (st, "bad-op")
+  | ["symlink", t, p] => match fromHex t, parsePath p with
+    | some t, some p => fsUpd st (Fs.symlink st.fs t p)
+    | _, _ => (st, "bad-op")
+  | ["remove", p] => match parsePath p with
+    | some p => fsUpd st (Fs.remove st.fs p)
+    | none => (st, "bad-op")
+  | ["rename", a, b] => match parsePath a, parsePath b with
+    | some a, some b => fsUpd st (Fs.rename st.fs a b)
+    | _, _ => (st, "bad-op")
+  | ["chmod", p, perm] => match parsePath p, parseOct perm with
+    | some p, some perm => fsUpd st (Fs.chmod st.fs p perm)
+    | _, _ => (st, "bad-op")
+  | ["chown", p, u, g] => match parsePath p, u.toNat?, g.toNat? with
+    | some p, some u, some g => fsUpd st (Fs.chown st.fs p u g)
+    | _, _, _ => (st, "bad-op")
+  | ["lchown", p, u, g] => match parsePath p, u.toNat?, g.toNat? with
+    | some p, some u, some g => fsUpd st (Fs.lchown st.fs p u g)
+    | _, _, _ => (st, "bad-op")
+  | ["readdir", p] => match parsePath p with
+    | some p => (st, match Fs.readdir st.fs p with
+        | .ok l => ",".intercalate (l.map fun (n, i) => toHex n ++ ":" ++ kindCh i.kind)
+        | .error e => errName e)
+    | none => (st, "bad-op")
+  | _ => (st, "bad-op")
+
 def rlCmd (st : St) : List String → St × String
   | ["bucket", name, n, d, burst, now] =>
     match n.toNat?, d.toNat?, burst.toNat?, now.toNat? with
@@ -509,6 +602,7 @@ def step (st : St) (line : String) : St × String :=
   | "pool" :: args => (st, poolCmd args)
   | "drain" :: args => drainCmd st args
   | "conns" :: args => (st, connsCmd args)
+  | "fs" :: args => fsCmd st args
   | ["reset"] => ({}, "ok")
   | _ => (st, "bad-op")
 
